@@ -24,13 +24,14 @@ Theorem C09_no_usize_mask : bit_lit_usize_mask = None /\ bit_lit_pointer_mask = 
 Proof. split; reflexivity. Qed.
 
 (* The truncation lint L1142 is raised iff the value is outside the range of its
-   type — except for one class of false positives (a negated bit-integer literal
-   of magnitude exactly max+1), which is a listed finding. *)
+   type.  (Until D22 was repaired there was one class of false positives - a negated
+   bit-integer literal of magnitude exactly max+1, `-0x80` as i8 - kept below as
+   C09_pinned_false_positive_refuted.) *)
 Theorem C09_lint_characterisation : forall neg tok t,
   0 <= magnitude tok < 2 ^ 128 -> vt_is_integral t = true ->
   let l := fst (source_literal true neg tok) in
   admissible l t ->
-  (lint l t = true <-> ~ (vt_min t <= math_value neg tok <= vt_max t) \/ false_positive neg tok t).
+  (lint l t = true <-> ~ (vt_min t <= math_value neg tok <= vt_max t)).
 Proof. exact lint_characterisation. Qed.
 
 (* Hence: no lint => the literal has exactly its mathematical value. *)
@@ -49,7 +50,7 @@ Theorem C09_lint_characterisation_on_target : forall ub neg tok t,
   0 <= magnitude tok < 2 ^ 128 -> vt_is_integral t = true ->
   let l := fst (source_literal true neg tok) in
   admissible l t ->
-  (lint_on ub l t = true <-> ~ (vt_min t <= math_value neg tok <= lint_max ub t) \/ false_positive_on ub neg tok t).
+  (lint_on ub l t = true <-> ~ (vt_min t <= math_value neg tok <= lint_max ub t)).
 Proof. exact lint_on_characterisation. Qed.
 
 Theorem C09_no_lint_in_target_range : forall ub neg tok t,
@@ -74,12 +75,13 @@ Theorem C09_pinned_wasm_usize_refuted :
 Proof. exact lint_wasm_usize_pinned_refuted. Qed.
 
 Theorem C09_pinned_i128_min_refuted :
-  lint (fst (source_literal false true (TNaked (2 ^ 127)))) Int128 = true /\
+  lint_pinned (fst (source_literal false true (TNaked (2 ^ 127)))) Int128 = true /\
   vt_min Int128 <= math_value true (TNaked (2 ^ 127)) <= vt_max Int128.
 Proof. exact lint_i128_min_refuted. Qed.
 
-Theorem C09_known_false_positive :
-  lint (fst (source_literal true true (TBits 128))) Int8 = true /\
+Theorem C09_pinned_false_positive_refuted :
+  lint_pinned (fst (source_literal true true (TBits 128))) Int8 = true /\
+  lint (fst (source_literal true true (TBits 128))) Int8 = false /\
   vt_min Int8 <= math_value true (TBits 128) <= vt_max Int8.
 Proof. exact lint_negated_bits_false_positive. Qed.
 
@@ -94,7 +96,8 @@ Proof. exact materialise_bit_masked_refuted. Qed.
    of conditions, call and builtin arguments, array elements, structure-literal members,
    operands, under unary operators / parentheses / casts, indices - also on the left of an
    assignment -, return values).  The linter looks at each of them exactly once, in that
-   order, with its own value and type. *)
+   order, with its own value and type (and the kind KNegBit exactly when it is a typed bit literal
+   standing directly under a negation, where the linter applies the test of the Unary arm). *)
 Theorem C09_linter_reaches_every_literal :
   forall d, LintWalk.lint_visits d = LintWalk.occs_decl d.
 Proof. exact LintWalkProofs.lint_visits_are_occurrences. Qed.
@@ -103,15 +106,64 @@ Proof. exact LintWalkProofs.lint_visits_are_occurrences. Qed.
    nothing else is. *)
 Theorem C09_out_of_range_literal_always_linted : forall oor d o t,
   In o (LintWalk.occs_decl d) -> LintWalk.oc_ty o = Some t ->
-  oor (LintWalk.oc_signed o) (LintWalk.oc_val o) t = true ->
+  oor (LintWalk.oc_kind o) (LintWalk.oc_val o) t = true ->
   In (LintWalk.oc_pos o) (LintWalk.l1142 oor d).
 Proof. exact LintWalkProofs.l1142_always. Qed.
 
 Theorem C09_lint_only_for_out_of_range_literals : forall oor d p,
   In p (LintWalk.l1142 oor d) ->
   exists o t, In o (LintWalk.occs_decl d) /\ LintWalk.oc_pos o = p /\ LintWalk.oc_ty o = Some t /\
-              oor (LintWalk.oc_signed o) (LintWalk.oc_val o) t = true.
+              oor (LintWalk.oc_kind o) (LintWalk.oc_val o) t = true.
 Proof. exact LintWalkProofs.l1142_never. Qed.
+
+(* The range tests the linter applies ([LintWalk.range_test], over a table (signed?, min, max) of
+   the opaque type tags).  A bit literal that is directly the operand of a negation (kind KNegBit)
+   denotes the negated magnitude; at a signed type it is tested with `max + 1 < magnitude`, so it
+   is flagged iff the value it denotes is below the minimum: -0x80 as i8 is not flagged (the repair of
+   the false positive at magnitude max+1).  At an unsigned type, and for every other literal, the
+   test is the one from before the repair. *)
+Theorem C09_negated_bit_literal_linted_iff_below_min : forall tbl t sg mn mx,
+  tbl t = Some (sg, mn, mx) -> forall v, sg = true -> mn = - mx - 1 ->
+  (LintWalk.range_test tbl LintWalk.KNegBit v t = true <-> - v < mn).
+Proof. exact LintWalkProofs.range_test_negbit_signed. Qed.
+
+Theorem C09_negated_bit_literal_in_range_not_linted : forall tbl t sg mn mx,
+  tbl t = Some (sg, mn, mx) -> forall v, sg = true -> mn = - mx - 1 -> mn <= - v ->
+  LintWalk.range_test tbl LintWalk.KNegBit v t = false.
+Proof. exact LintWalkProofs.negated_bit_literal_in_range_not_flagged. Qed.
+
+Theorem C09_other_literals_tested_as_before : forall tbl k v t,
+  k <> LintWalk.KNegBit -> LintWalk.range_test tbl k v t = LintWalk.range_test_oldneg tbl k v t.
+Proof. exact LintWalkProofs.range_test_plain_kinds. Qed.
+
+(* Over a table of integer ranges (two's complement or unsigned), with bit literals being
+   magnitudes: every L1142 is at a literal whose denoted value is outside the range of its type
+   ("in-range values never raise L1142"), and every such literal is reported - except a negated
+   bit literal at an UNSIGNED type whose magnitude fits, which is not (refuted below). *)
+Theorem C09_lint_only_for_values_out_of_range : forall tbl d p,
+  LintWalkProofs.tbl_wf tbl -> LintWalkProofs.magnitudes_ok d ->
+  In p (LintWalk.l1142 (LintWalk.range_test tbl) d) ->
+  exists o t sg mn mx,
+    In o (LintWalk.occs_decl d) /\ LintWalk.oc_pos o = p /\ LintWalk.oc_ty o = Some t /\
+    tbl t = Some (sg, mn, mx) /\ ~ (mn <= LintWalkProofs.occ_value o <= mx).
+Proof. exact LintWalkProofs.l1142_range_test_only_out_of_range. Qed.
+
+Theorem C09_value_out_of_range_always_linted : forall tbl d o t sg mn mx,
+  LintWalkProofs.tbl_wf tbl -> LintWalkProofs.magnitudes_ok d ->
+  In o (LintWalk.occs_decl d) -> LintWalk.oc_ty o = Some t -> tbl t = Some (sg, mn, mx) ->
+  (LintWalk.oc_kind o = LintWalk.KNegBit -> sg = true) ->
+  ~ (mn <= LintWalkProofs.occ_value o <= mx) ->
+  In (LintWalk.oc_pos o) (LintWalk.l1142 (LintWalk.range_test tbl) d).
+Proof. exact LintWalkProofs.l1142_range_test_every_out_of_range. Qed.
+
+(* the walk of before the repair (Unary arm only recursing) flagged `-0x80` as i8 *)
+Theorem C09_pinned_negated_min_literal_refuted :
+  exists d, LintWalk.l1142_of (LintWalk.range_test LintWalkProofs.toy_tbl) (LintWalk.lint_decl_oldneg d) = [1%N] /\
+            LintWalk.l1142 (LintWalk.range_test_oldneg LintWalkProofs.toy_tbl) d = [1%N] /\
+            LintWalk.l1142 (LintWalk.range_test LintWalkProofs.toy_tbl) d = [] /\
+            LintWalk.occs_decl d = [LintWalk.MkOcc 1 LintWalk.KNegBit 128 (Some LintWalkProofs.i8)] /\
+            LintWalkProofs.toy_tbl LintWalkProofs.i8 = Some (true, -128, 127).
+Proof. exact LintWalkProofs.negated_min_literal_pinned_refuted. Qed.
 
 (* One linter is shared by the declarations of a module; its state is back to the default after
    every declaration, so no declaration influences the lints of the next. *)
@@ -149,3 +201,9 @@ Print Assumptions C09_linter_without_parentheses_refuted.
 Print Assumptions C09_lint_characterisation_on_target.
 Print Assumptions C09_no_lint_in_target_range.
 Print Assumptions C09_pinned_wasm_usize_refuted.
+Print Assumptions C09_negated_bit_literal_linted_iff_below_min.
+Print Assumptions C09_negated_bit_literal_in_range_not_linted.
+Print Assumptions C09_other_literals_tested_as_before.
+Print Assumptions C09_lint_only_for_values_out_of_range.
+Print Assumptions C09_value_out_of_range_always_linted.
+Print Assumptions C09_pinned_negated_min_literal_refuted.
